@@ -110,6 +110,7 @@ def freshness_replay(chk, sessions, rng, builders, queries, label, scale=0.125):
                 continue
             fmin, fmax = sc.band_of(op, scale)
             ref = fresh(s)
+            before = {str(k): np.array(v.values, copy=True) for k, v in s.dataset.variables.items()}
             for qname, q in queries:
                 with np.errstate(all="ignore"):
                     try:
@@ -131,6 +132,18 @@ def freshness_replay(chk, sessions, rng, builders, queries, label, scale=0.125):
                                        on_new_object=(err_b or np.asarray(getattr(b, "values", b) if not hasattr(b, "data_vars") else b[list(b.data_vars)[0]].values).tolist())))
                     broken = True
                     break
+            if not broken:
+                # a query is pure (SpectrumSession.tla: Query leaves the object's values unchanged)
+                for k, v in s.dataset.variables.items():
+                    b = before.get(str(k))
+                    a = np.asarray(v.values)
+                    same_ = b is not None and a.shape == b.shape and (np.array_equal(a, b) if a.dtype.kind in "MmOUS" else np.array_equal(a, b, equal_nan=True))
+                    if not same_:
+                        chk.violation("session:%s:query-modifies-object:%s" % (label, k),
+                                      "asking for a parameter changed the variable %s of the spectrum object (a query must leave the object as it is)" % k,
+                                      dict(ctx, history=done, band=[fmin, fmax if math.isfinite(fmax) else "inf"]))
+                        broken = True
+                        break
             if broken:
                 break
         replayed += 1
